@@ -1,4 +1,5 @@
 import MdIt.Str
+import MdIt.Verbatim
 import MdIt.Proto
 /-! Driver sections for string functions: `normalize <s>`, `cols <col> <s>`, `quote <fixed> <bs> <sc> <s>` -/
 namespace MdIt.Drv
@@ -23,4 +24,15 @@ def unescapeLine (toks : List String) : String :=
   match toks with
   | [s] => encChars (unescapeAll (fun _ whole => whole) (decChars s))
   | _ => "bad-request"
+end MdIt.Drv
+
+namespace MdIt.Drv
+open MdIt.Proto
+/-- `cutline <tShift> <bs> <indent> <chars>` · `codespan <inner>` · `hr <text>` -/
+def verbatimLine (op : String) (toks : List String) : String :=
+  match op, toks with
+  | "cutline", [ts, bs, ind, s] => encChars (cutLine (decChars s) ts.toNat! bs.toNat! ind.toNat!)
+  | "codespan", [s] => encChars (codeSpanContent (decChars s))
+  | "hr", [s] => (match hrMarkup (decChars s) with | some m => "s" ++ encChars m | none => "N")
+  | _, _ => "bad-request"
 end MdIt.Drv
